@@ -1,33 +1,61 @@
-"""Unit `fusedevw` (C04): the space accounting of FuseDevWriter (src/transport/fusedev/mod.rs) that the abstract Writer of the
-server unit assumes: available = capacity - written, the space check fails iff the request exceeds it and never mutates,
-and its assert! is exactly `buffered || nothing written yet`."""
+"""Unit `fusedevw` (C04, C01 refinement): the whole of FuseDevWriter (src/transport/fusedev/mod.rs) - new, split_at, commit, the space
+accounting (bytes_written / available_bytes / check_available_space / account_written), `impl Write` (write, write_vectored, flush; the
+std default `write_all` on top of `write`), write_obj, the file transfers (write_from, write_from_at, write_all_from) and do_write.
+
+View of a writer: `buf@` (the bytes accounted so far), `spec_capacity(&buf)` (its share of the reply buffer), `vec_base(&buf)` (where that
+share starts inside the reply buffer), `buffered`, `fd`.  The device is ghost state: `DevLog.log`, the sequence of (fd, bytes) of every
+SUCCESSFUL `write(2)` / `writev(2)` on a /dev/fuse descriptor, threaded as an erased `Tracked<&mut DevLog>` (rule R23) from the entry
+points down to the two system-call models; in addition every device write needs the capability `dev_write_ok(fd, bytes)` (DESIGN A.3).
+
+C04, per operation `op`:
+  [C04.fdw.<op>.exceeds_fails]   the request exceeds `available_bytes()`  =>  Err, and buf / capacity / flags / device log are as before;
+  [C04.fdw.<op>.amount]          Ok(n) => `bytes_written()` grew by exactly n (and n is what was asked / what the file reported);
+  [C04.fdw.<op>.order]           the bytes are appended at the end of `buf`, in order (write_vectored: the concatenation of the slices);
+  [C04.fdw.<op>.device]          unbuffered: exactly ONE device write of exactly these bytes; buffered: the device log is untouched;
+  [C04.fdw.*.in_bounds]          memory safety of the raw operations, PROVED at every call: `set_len(n)` needs n <= capacity,
+                                 `extend_from_slice` must fit the capacity (the Vec is built over borrowed memory: a reallocation would
+                                 free memory it does not own), `as_mut_ptr().add(len)` + `from_raw_ptr(.., count)` needs len + count <= capacity,
+                                 `Vec::from_raw_parts(ptr.add(o), len, cap)` needs o + cap within the allocation `ptr` came from.
+C01 (refinement of the abstract Writer of prelude/transport.rs, which unit `server` ASSUMES): section REFINE below - for every Writer
+operation a wrapper whose contract is the abstract contract (generated from the prelude text) and whose body is the one call of the real
+function; see `refinement_items`."""
+import os
+import re
+
 from vx.api import Unit, Fn, Copy, Raw, Group
+from vx import extract as X
 
 F = 'src/transport/fusedev/mod.rs'
+SC = "impl<'a, S: BitmapSlice> FuseDevWriter<'a, S>"
+SNEW = "impl<'a, S: BitmapSlice + Default> FuseDevWriter<'a, S>"
+SWIO = "impl<S: BitmapSlice> Write for FuseDevWriter<'_, S>"
 
-PRE = r'''
-pub trait BitmapSlice {}
+PRE_COMMON = r'''
+// vm_memory::bitmap::BitmapSlice: `Bitmap + Clone + Debug + ..` (only Clone is used: split_at clones the slice into the second writer)
+pub trait BitmapSlice: Clone {}
 pub type RawFd = i32;
 impl io::Error {
     #[verifier::external_body]
     pub fn new<E>(kind: io::ErrorKind, e: E) -> (r: io::Error) ensures r.os_code() is None, r.skind() == kind { unimplemented!() }
 }
 #[verifier::external_body] pub fn fmt_opaque() -> String { unimplemented!() }
+// std::io::IoSlice: a borrowed byte slice (`Deref<Target = [u8]>`; len / is_empty are the slice's, reached through the deref)
 pub struct IoSlice<'a> { pub b: &'a [u8] }
-impl<'a> IoSlice<'a> { pub fn new(b: &'a [u8]) -> (r: IoSlice<'a>) ensures r.b@ == b@ { IoSlice { b } } }
+impl<'a> IoSlice<'a> {
+    pub fn new(b: &'a [u8]) -> (r: IoSlice<'a>) ensures r.b@ == b@ { IoSlice { b } }
+    pub fn len(&self) -> (r: usize) ensures r == self.b@.len() { self.b.len() }
+    pub fn is_empty(&self) -> (r: bool) ensures r == (self.b@.len() == 0) { self.b.len() == 0 }
+}
+impl<'a> std::ops::Deref for IoSlice<'a> {
+    type Target = [u8];
+    fn deref(&self) -> (r: &[u8]) ensures r@ == self.b@ { self.b }
+}
 pub open spec fn ios_concat(s: Seq<IoSlice<'_>>) -> Seq<u8> decreases s.len() {
     if s.len() == 0 { Seq::<u8>::empty() } else { s[0].b@ + ios_concat(s.skip(1)) }
 }
-// nix::unistd::write / nix::sys::uio::writev on the /dev/fuse descriptor: THE device write.  Capability: only the byte
-// string the caller's contract names may be written (DESIGN 3.4b); result unconstrained (the kernel may refuse it)
 #[repr(i32)] #[derive(Clone, Copy)] pub enum Errno { UnknownErrno = 0, EPERM = 1, EIO = 5, EINVAL = 22 }
+// capability of a device write: only the byte string the caller's contract names may be written (DESIGN 3.4b)
 pub uninterp spec fn dev_write_ok(fd: RawFd, b: Seq<u8>) -> bool;
-#[verifier::external_body] pub fn write(fd: RawFd, buf: &[u8]) -> (r: core::result::Result<usize, Errno>)
-    requires dev_write_ok(fd, buf@), // [devwrite]
-{ unimplemented!() }
-#[verifier::external_body] pub fn writev(fd: RawFd, iov: &[IoSlice<'_>]) -> (r: core::result::Result<usize, Errno>)
-    requires dev_write_ok(fd, ios_concat(iov@)), // [devwrite]
-{ unimplemented!() }
 #[verifier::external_body] #[verifier::reject_recursive_types(S)] pub struct VirtioFsWriter<'a, S> { _p: PhantomData<&'a S> }
 // Vec::capacity: at least the length (std guarantee)
 pub uninterp spec fn spec_capacity<T, A: core::alloc::Allocator>(v: &Vec<T, A>) -> nat;
@@ -35,42 +63,432 @@ pub assume_specification<T, A: core::alloc::Allocator> [std::vec::Vec::<T, A>::c
     ensures r == spec_capacity(v), r >= v@.len();
 '''
 
+# nix::unistd::write / nix::sys::uio::writev on the /dev/fuse descriptor: THE device write, capability only (unit asyncdevw)
+DEV_CAP = r'''
+#[verifier::external_body] pub fn write(fd: RawFd, buf: &[u8]) -> (r: core::result::Result<usize, Errno>)
+    requires dev_write_ok(fd, buf@), // [devwrite]
+{ unimplemented!() }
+#[verifier::external_body] pub fn writev(fd: RawFd, iov: &[IoSlice<'_>]) -> (r: core::result::Result<usize, Errno>)
+    requires dev_write_ok(fd, ios_concat(iov@)), // [devwrite]
+{ unimplemented!() }
+'''
+PRE = PRE_COMMON + DEV_CAP          # what unit asyncdevw imports (unchanged meaning)
 
-def unit(root='/repo'):
-    SC = "impl<'a, S: BitmapSlice> FuseDevWriter<'a, S>"
-    items = [
-        Raw(PRE),
-        # ManuallyDrop<Vec<u8>> only suppresses the destructor (the Vec is built over borrowed memory): modelled as the Vec itself
-        Copy(F, r"pub struct FuseDevWriter<'a, S", subst=[('ManuallyDrop<Vec<u8>>', 'Vec<u8>'), ('S: BitmapSlice = ()', 'S: BitmapSlice')]),
-        Copy('src/transport/mod.rs', r"pub enum Writer<'a, S", subst=[('S: BitmapSlice = ()', 'S: BitmapSlice')], prefix='#[verifier::reject_recursive_types(S)]'),
-        Raw('''
+# the same two system calls with the device as ghost state.  ASSUMED (kernel, fs/fuse/dev.c fuse_dev_do_write): a write on /dev/fuse
+# consumes the whole message or fails (`return nbytes` / negative errno) - Ok(n) => n == bytes offered; a failed write delivers nothing.
+DEV_LOG = r'''
+pub ghost struct DevWrite { pub fd: RawFd, pub bytes: Seq<u8> }
+pub tracked struct DevLog { pub ghost log: Seq<DevWrite> }
+#[verifier::external_body] pub fn write(fd: RawFd, buf: &[u8], Tracked(dl): Tracked<&mut DevLog>) -> (r: core::result::Result<usize, Errno>)
+    requires dev_write_ok(fd, buf@), // [devwrite]
+    ensures r is Ok ==> r->Ok_0 == buf@.len() && final(dl).log == old(dl).log.push(DevWrite { fd: fd, bytes: buf@ }),
+            r is Err ==> final(dl).log == old(dl).log,
+{ unimplemented!() }
+#[verifier::external_body] pub fn writev(fd: RawFd, iov: &[IoSlice<'_>], Tracked(dl): Tracked<&mut DevLog>) -> (r: core::result::Result<usize, Errno>)
+    requires dev_write_ok(fd, ios_concat(iov@)), // [devwrite]
+    ensures r is Ok ==> r->Ok_0 == ios_concat(iov@).len() && final(dl).log == old(dl).log.push(DevWrite { fd: fd, bytes: ios_concat(iov@) }),
+            r is Err ==> final(dl).log == old(dl).log,
+{ unimplemented!() }
+'''
+
+MODEL = r'''
+pub type Result<T> = core::result::Result<T, Error>;
+// transport::Error: only the variant FuseDevWriter constructs (the others wrap foreign error types)
+pub enum Error { SplitOutOfBounds(usize), Other }
+
+// ---- Vec<u8> over borrowed memory (`Vec::from_raw_parts(data_buf.as_mut_ptr(), 0, data_buf.len())` inside ManuallyDrop): besides its view
+// and capacity, WHERE its allocation starts, as an offset into the address space (`vec_base`); [base, base + capacity) is its share
+pub uninterp spec fn vec_base<T, A: core::alloc::Allocator>(v: &Vec<T, A>) -> int;
+pub open spec fn same_alloc(a: &Vec<u8>, b: &Vec<u8>) -> bool { spec_capacity(a) == spec_capacity(b) && vec_base(a) == vec_base(b) }
+// no allocation is larger than the address space (std: capacity <= isize::MAX bytes)
+pub broadcast axiom fn axiom_capacity_bound(v: &Vec<u8>)
+    ensures v@.len() <= #[trigger] spec_capacity(v) <= usize::MAX;
+// Vec::set_len (unsafe fn; std "Safety: new_len must be less than or equal to capacity(); the elements at old_len..new_len must be
+// initialized"): the length changes, nothing else; the first min(old, new) elements are the old ones, the others are whatever the memory holds
+pub assume_specification<T, A: core::alloc::Allocator> [std::vec::Vec::<T, A>::set_len] (v: &mut Vec<T, A>, new_len: usize)
+    requires new_len <= spec_capacity(old(v)), // [C04.fdw.set_len.in_bounds]
+    ensures final(v)@.len() == new_len,
+            forall|i: int| 0 <= i < new_len && i < old(v)@.len() ==> final(v)@[i] == old(v)@[i],
+            spec_capacity(final(v)) == spec_capacity(old(v)), vec_base(final(v)) == vec_base(old(v));
+// `V.extend_from_slice(D)` on such a Vec (ABSTRACT, logged): D must fit the capacity - otherwise the Vec would reallocate, i.e. hand memory
+// it does not own to the allocator - and then (std: no reallocation when the capacity suffices) only view and length change
+#[verifier::external_body] pub fn vx_extend_from_slice(v: &mut Vec<u8>, d: &[u8])
+    requires old(v)@.len() + d@.len() <= spec_capacity(old(v)), // [C04.fdw.extend.in_bounds]
+    ensures final(v)@ == old(v)@ + d@, same_alloc(final(v), old(v)),
+{ unimplemented!() }
+// `&V[..N]` (ABSTRACT, logged): the first N elements; N <= len or the index panics
+#[verifier::external_body] pub fn vx_vec_prefix(v: &Vec<u8>, n: usize) -> (r: &[u8])
+    requires n <= v@.len(), // [C04.fdw.prefix.in_bounds]
+    ensures r@ == v@.take(n as int),
+{ unimplemented!() }
+
+// ---- raw pointers into the reply buffer (ABSTRACT, logged): a pointer knows its address, how many bytes remain up to the end of the
+// allocation it was derived from (`room`: pointer arithmetic and accesses beyond it are undefined behaviour) and the initialised bytes
+// that lay at its address when it was taken (`mem`; valid while nothing is written through another path in between - in split_at only
+// field assignments happen between `as_mut_ptr()` and the two `from_raw_parts`)
+#[verifier::external_body] #[derive(Clone, Copy)] pub struct BufPtr { _p: usize }
+impl BufPtr {
+    pub uninterp spec fn addr(&self) -> int;
+    pub uninterp spec fn room(&self) -> nat;
+    pub uninterp spec fn mem(&self) -> Seq<u8>;
+    // <*mut u8>::add
+    #[verifier::external_body] pub fn add(self, n: usize) -> (r: BufPtr)
+        requires n <= self.room(), // [C04.fdw.ptr_add.in_bounds]
+        ensures r.addr() == self.addr() + n, r.room() == self.room() - n, r.mem() == self.mem().skip(n as int),
+    { unimplemented!() }
+}
+// Vec::as_mut_ptr / <[u8]>::as_mut_ptr
+#[verifier::external_body] pub fn vx_vec_as_mut_ptr(v: &mut Vec<u8>) -> (r: BufPtr)
+    ensures final(v)@ == old(v)@, same_alloc(final(v), old(v)), r.addr() == vec_base(old(v)), r.room() == spec_capacity(old(v)), r.mem() == old(v)@,
+{ unimplemented!() }
+pub uninterp spec fn slice_base(s: &[u8]) -> int;
+#[verifier::external_body] pub fn vx_slice_as_mut_ptr(s: &mut [u8]) -> (r: BufPtr)
+    ensures final(s)@ == old(s)@, r.addr() == slice_base(&*old(s)), r.room() == old(s)@.len(), r.mem() == old(s)@,
+{ unimplemented!() }
+// Vec::from_raw_parts(ptr, length, capacity) (unsafe fn; std "Safety": capacity bytes at ptr belong to one allocation, length <= capacity,
+// the first length elements are initialised)
+#[verifier::external_body] pub fn vx_vec_from_raw_parts(p: BufPtr, length: usize, capacity: usize) -> (r: Vec<u8>)
+    requires length <= capacity, capacity <= p.room(), // [C04.fdw.from_raw_parts.in_bounds]
+    ensures r@ == (if length <= p.mem().len() { p.mem().take(length as int) } else { r@ }), r@.len() == length, spec_capacity(&r) == capacity, vec_base(&r) == p.addr(),
+{ unimplemented!() }
+
+// ---- crate::file_buf::FileVolatileSlice as (address, length) (the view of units iobuffers / virtiofsw; KX group file_buf covers its accessors)
+#[verifier::external_body] #[derive(Clone, Copy)] pub struct FileVolatileSlice<'a> { _p: PhantomData<&'a u8> }
+impl<'a> FileVolatileSlice<'a> {
+    pub uninterp spec fn addr(&self) -> int;
+    pub uninterp spec fn slen(&self) -> nat;
+    #[verifier::external_body] pub fn len(&self) -> (r: usize) ensures r == self.slen() { unimplemented!() }
+}
+pub open spec fn fv_total(b: Seq<FileVolatileSlice<'_>>) -> nat decreases b.len() {
+    if b.len() == 0 { 0 } else { b[0].slen() + fv_total(b.skip(1)) }
+}
+// `FileVolatileSlice::from_raw_ptr(V.as_mut_ptr().add(OFF), COUNT)` (ABSTRACT, logged): a window of COUNT bytes, OFF bytes into V's
+// allocation.  Safe only inside the allocation, and only behind the accounted bytes (it hands out write access: bytes already accounted
+// must not be overwritten) - both PROVED at the call.  Whoever holds the window may change the spare memory: nothing is promised about it.
+#[verifier::external_body] pub fn vx_spare_slice<'b>(off: usize, count: usize, v: &mut Vec<u8>) -> (r: FileVolatileSlice<'b>)
+    requires off + count <= spec_capacity(old(v)), // [C04.fdw.write_from.in_bounds]
+             off >= old(v)@.len(), // [C04.fdw.write_from.behind_accounted]
+    ensures final(v)@ == old(v)@, same_alloc(final(v), old(v)), r.addr() == vec_base(old(v)) + off, r.slen() == count,
+{ unimplemented!() }
+// crate::file_traits::FileReadWriteVolatile: a dependency.  ASSUMED (as in unit virtiofsw): Ok(n) => n <= the bytes offered, exactly the
+// first n offered bytes were filled and nothing else was touched (readv / preadv semantics)
+pub trait FileReadWriteVolatile {
+    fn read_vectored_volatile(&mut self, bufs: &[FileVolatileSlice]) -> (r: io::Result<usize>) ensures r is Ok ==> r->Ok_0 <= fv_total(bufs@);
+    fn read_vectored_at_volatile(&mut self, bufs: &[FileVolatileSlice], offset: u64) -> (r: io::Result<usize>) ensures r is Ok ==> r->Ok_0 <= fv_total(bufs@);
+}
+// `impl<T: FileReadWriteVolatile + ?Sized> FileReadWriteVolatile for &mut T` (file_traits.rs): forwards to T
+impl<T: FileReadWriteVolatile> FileReadWriteVolatile for &mut T {
+    #[verifier::external_body] fn read_vectored_volatile(&mut self, bufs: &[FileVolatileSlice]) -> (r: io::Result<usize>) { unimplemented!() }
+    #[verifier::external_body] fn read_vectored_at_volatile(&mut self, bufs: &[FileVolatileSlice], offset: u64) -> (r: io::Result<usize>) { unimplemented!() }
+}
+// vm_memory::ByteValued: plain old data whose memory image is `sbytes`
+pub trait ByteValued: Sized + Copy {
+    spec fn sbytes(&self) -> Seq<u8>;
+    fn as_slice(&self) -> (r: &[u8]) ensures r@ == self.sbytes();
+}
+
+// ---- specification vocabulary
+pub proof fn lemma_ios_concat_append(a: Seq<IoSlice<'_>>, b: Seq<IoSlice<'_>>)
+    ensures ios_concat(a + b) =~= ios_concat(a) + ios_concat(b)
+    decreases a.len()
+{
+    if a.len() == 0 { assert(a + b =~= b); }
+    else { assert((a + b).skip(1) =~= a.skip(1) + b); lemma_ios_concat_append(a.skip(1), b); }
+}
+pub proof fn lemma_ios_take_next(s: Seq<IoSlice<'_>>, i: int)
+    requires 0 <= i < s.len()
+    ensures ios_concat(s.take(i + 1)) =~= ios_concat(s.take(i)) + s[i].b@,
+            ios_concat(s.take(i)).len() + s[i].b@.len() <= ios_concat(s).len(),
+{
+    assert(s.take(i + 1) =~= s.take(i) + seq![s[i]]);
+    lemma_ios_concat_append(s.take(i), seq![s[i]]);
+    assert(seq![s[i]].skip(1) =~= Seq::<IoSlice<'_>>::empty());
+    reveal_with_fuel(ios_concat, 2);
+    assert(ios_concat(seq![s[i]]) =~= s[i].b@);
+    assert(s =~= s.take(i + 1) + s.skip(i + 1));
+    lemma_ios_concat_append(s.take(i + 1), s.skip(i + 1));
+}
+'''
+
+SPEC = r'''
+impl<'a, S: BitmapSlice> FuseDevWriter<'a, S> {
+    pub open spec fn cap(&self) -> nat { spec_capacity(&self.buf) }
+    // everything but the bytes: descriptor, mode, and the share of the reply buffer
+    pub open spec fn frame_same(&self, o: &Self) -> bool { self.fd == o.fd && self.buffered == o.buffered && same_alloc(&self.buf, &o.buf) }
+    pub open spec fn unchanged(&self, o: &Self) -> bool { self.frame_same(o) && self.buf@ == o.buf@ }
+    // `n` bytes were appended behind the bytes of `o`
+    pub open spec fn grew_by(&self, o: &Self, n: nat) -> bool { self.buf@.len() == o.buf@.len() + n && self.buf@.take(o.buf@.len() as int) == o.buf@ }
+}
 pub open spec fn other_bytes<'a, S: BitmapSlice>(other: Option<&Writer<'a, S>>) -> Seq<u8> {
     match other { Some(Writer::FuseDev(w)) => w.buf@, _ => Seq::<u8>::empty() }
 }
-'''),
-        Group("impl<'a, S: BitmapSlice> FuseDevWriter<'a, S> {", [
-            Fn(F, SC, 'commit',
+'''
+
+# std::io::Write::write_all - the DEFAULT method FuseDevWriter inherits (library/std/src/io/mod.rs, `default_write_all`), copied by hand
+# (TRUSTED copy of std text; `e.is_interrupted()` written out as `e.kind() == ErrorKind::Interrupted`).  VERIFIED against its contract on
+# top of the extracted `write`.
+STD_WRITE_ALL = r'''
+    #[verifier::exec_allows_no_decreases_clause] #[verifier::loop_isolation(false)]
+    fn write_all(&mut self, data: &[u8], Tracked(dl): Tracked<&mut DevLog>) -> (r: io::Result<()>)     // std: `mut buf: &[u8]` (rebound below: a `mut` parameter has no name for its initial value)
+        requires
+            data@.len() > 0 ==> old(self).buffered || old(self).buf@.len() == 0, // [C04.writer.assert]
+            data@.len() > 0 && !old(self).buffered && data@.len() <= old(self).cap() ==> dev_write_ok(old(self).fd, data@), // [C04.fdw.write_all.one_write]
+        ensures
+            final(self).frame_same(old(self)),
+            old(self).buf@.len() + data@.len() > old(self).cap() ==> r is Err && final(self).unchanged(old(self)) && final(dl).log == old(dl).log, // [C04.fdw.write_all.exceeds_fails]
+            r is Ok ==> final(self).grew_by(old(self), data@.len()), // [C04.fdw.write_all.amount]
+            r is Ok && old(self).buffered ==> final(self).buf@ == old(self).buf@ + data@ && final(dl).log == old(dl).log, // [C04.fdw.write_all.order]
+            r is Ok && !old(self).buffered && data@.len() > 0 ==> final(dl).log == old(dl).log.push(DevWrite { fd: old(self).fd, bytes: data@ }), // [C04.fdw.write_all.device]
+            r is Ok && data@.len() == 0 ==> final(dl).log == old(dl).log,
+            r is Err ==> final(self).unchanged(old(self)) && final(dl).log == old(dl).log, // [C04.fdw.write_all.err_nothing]
+            old(self).buffered && old(self).buf@.len() + data@.len() <= old(self).cap() ==> r is Ok,
+    {
+        let mut buf = data; let ghost all = data@;
+        while !buf.is_empty()
+            invariant
+                buf@ == all || buf@.len() == 0,
+                buf@.len() == 0 && all.len() > 0 ==> self.grew_by(old(self), all.len()) && self.frame_same(old(self))
+                    && (old(self).buffered ==> self.buf@ == old(self).buf@ + all && dl.log == old(dl).log)
+                    && (!old(self).buffered ==> dl.log == old(dl).log.push(DevWrite { fd: old(self).fd, bytes: all })),
+                buf@ == all ==> self.unchanged(old(self)) && dl.log == old(dl).log,
+        {
+            match self.write(buf, Tracked(dl)) {
+                Ok(0) => { return Err(io::Error::new(io::ErrorKind::WriteZero, "failed to write whole buffer")); }
+                Ok(n) => { buf = vstd::slice::slice_subrange(buf, n, buf.len()); /* std: buf = &buf[n..] */ }
+                Err(ref e) if e.kind() == io::ErrorKind::Interrupted => { }
+                Err(e) => { return Err(e); }
+            }
+        }
+        Ok(())
+    }
+'''
+
+
+def wv_shape(root):
+    """which text shape has the buffered branch of write_vectored?  'fold' = `.filter(..).fold(..)` appending with extend_from_slice (the
+    text as of the pinned tree), 'for' = a `for b in bufs.iter().filter(..)` loop adding up `count` (appending by any means).  The loop
+    annotations (ghost text) differ; the CONTRACT is the same.  Any other shape loses an anchor (exit 2)."""
+    d = X.Source(root, F).find_fn(SWIO, 'write_vectored')
+    b = X.mask(d['body'])
+    if re.search(r'\bfor\s+b\s+in\s+bufs\s*\.\s*iter\s*\(\s*\)\s*\.\s*filter\s*\(', b) and re.search(r'\blet\s+mut\s+count\b', b):
+        return 'for'
+    return 'fold'
+
+
+TOK = dict(param='Tracked(dl): Tracked<&mut DevLog>', arg='Tracked(dl)')
+LOG_SAME = 'final(dl).log == old(dl).log'
+ASSERT_PRE = 'old(self).buffered || old(self).buf@.len() == 0 // [C04.writer.assert]'
+CLOSURE_E = '|e: Errno| -> (q: io::Error) ensures q.os_code() is None'
+EVERY = [
+    (r'ManuallyDrop::new\(((?:[^()]|\((?:[^()]|\([^()]*\))*\))*)\)', r'\1', 'every: ManuallyDrop::new(x) -> x (ManuallyDrop<T> is T whose destructor does not run)'),
+    (r'Vec::from_raw_parts\(', 'vx_vec_from_raw_parts(', 'every: Vec::from_raw_parts -> model call (in-bounds precondition, view = the initialised bytes at the pointer)'),
+    (r'self\.buf\.as_mut_ptr\(\)(?!\s*\.add)', 'vx_vec_as_mut_ptr(&mut self.buf)', 'every: Vec::as_mut_ptr -> model pointer (address, room, bytes)'),
+    (r'data_buf\.as_mut_ptr\(\)', 'vx_slice_as_mut_ptr(data_buf)', 'every: <[u8]>::as_mut_ptr -> model pointer (address, room, bytes)'),
+    (r'self\.buf\.extend_from_slice\(', 'vx_extend_from_slice(&mut self.buf, ', 'every: Vec::extend_from_slice on a Vec over borrowed memory -> model call that must fit the capacity'),
+    (r'&self\.buf\[\.\.(\w+)\]', r'vx_vec_prefix(&self.buf, \1)', 'every: &v[..n] -> model call (n <= len)'),
+    (r'FileVolatileSlice::from_raw_ptr\(\s*self\.buf\.as_mut_ptr\(\)\.add\((.+?)\),\s*([^,;]+?),?\s*\)\]', r'vx_spare_slice(\1, \2, &mut self.buf)]',
+     'every: raw window into the spare capacity -> model call stating it covers buf[off .. off+count) (in bounds, behind the accounted bytes)'),
+    (r'io::Error::other\("', 'io::Error::other_str("', 'every: Error::other("lit") -> Error::other_str("lit")'),
+]
+
+
+def tok(f, callees=(), path=(), free=(), rules=()):
+    f.rules = ('R23',) + tuple(rules)
+    f.ghost_token = dict(TOK, callees=list(callees), path_callees=list(path), free_callees=list(free))
+    return f
+
+
+def space(op, amount, extra=''):
+    """[exceeds_fails]: the request exceeds what is available => Err and NOTHING changed"""
+    return ('old(self).buf@.len() + %s > old(self).cap() ==> r is Err && final(self).unchanged(old(self)) && %s%s // [C04.fdw.%s.exceeds_fails]'
+            % (amount, LOG_SAME, extra, op))
+
+
+def writer_fns(root):
+    shape = wv_shape(root)
+    TOTAL = 'ios_concat(bufs@).len()'
+    WV_ENTRY = 'broadcast use axiom_capacity_bound; proof { assert(bufs@.take(0) =~= Seq::<IoSlice<\'_>>::empty()); assert(bufs@.take(bufs@.len() as int) =~= bufs@); assert(self.buf@.take(self.buf@.len() as int) =~= self.buf@); }'
+    SUM_LOOP = '''for x in it: bufs.iter()
+            invariant acc == ios_concat(bufs@.take(it.index@ as int)).len(), ios_concat(bufs@).len() <= usize::MAX, bufs@.take(bufs@.len() as int) =~= bufs@,
+        { proof { lemma_ios_take_next(bufs@, it.index@ as int); }'''
+    APPEND_INV = '''self.frame_same(old(self)), self.buffered, dl.log == old(dl).log, bufs@.take(bufs@.len() as int) =~= bufs@,
+                %(n)s == ios_concat(bufs@.take(it.index@ as int)).len(), ios_concat(bufs@).len() <= usize::MAX,
+                self.buf@ =~= old(self).buf@ + ios_concat(bufs@.take(it.index@ as int)), // [C04.fdw.write_vectored.loop]'''
+    if shape == 'fold':
+        wv_splices = [('^', 'after', WV_ENTRY),
+                      ('for x in bufs.iter() {', 'replace', SUM_LOOP),
+                      ('for b in bufs.iter() {', 'replace', '''for b in it: bufs.iter()
+            invariant old(self).buf@.len() + ios_concat(bufs@).len() <= old(self).cap(),
+                ''' + APPEND_INV % dict(n='acc') + '''
+        { proof { lemma_ios_take_next(bufs@, it.index@ as int); }'''),
+                      ('Ok(count)', 'before', 'proof { assert(self.buf@.take(old(self).buf@.len() as int) =~= old(self).buf@); }'),
+                      ('|e|', 'closure', CLOSURE_E)]
+    else:
+        # the loop of the 'for' shape: nothing is known up front about the space (that is the point of [exceeds_fails])
+        wv_splices = [('^', 'after', WV_ENTRY),
+                      ('for x in bufs.iter() {', 'replace', SUM_LOOP),
+                      ('for b in bufs.iter() {', 'replace', '''for b in it: bufs.iter()
+            invariant
+                ''' + APPEND_INV % dict(n='count') + '''
+        { proof { lemma_ios_take_next(bufs@, it.index@ as int); }'''),
+                      ('Ok(count)', 'before', 'proof { assert(self.buf@.take(old(self).buf@.len() as int) =~= old(self).buf@); }'),
+                      ('|e|', 'closure', CLOSURE_E)]
+    file_xfer = lambda op: dict(
+        requires=[ASSERT_PRE,
+                  # the bytes come from the file: whatever it delivers (at most `count` bytes) may go to the device
+                  '!old(self).buffered ==> forall|b: Seq<u8>| b.len() <= count ==> dev_write_ok(old(self).fd, b) // [C04.fdw.%s.one_write]' % op],
+        ensures=['final(self).frame_same(old(self))',
+                 space(op, 'count'),
+                 'r is Ok ==> r->Ok_0 <= count && final(self).grew_by(old(self), r->Ok_0 as nat) // [C04.fdw.%s.amount]' % op,
+                 'old(self).buffered ==> %s // [C04.fdw.%s.device]' % (LOG_SAME, op),
+                 '''r is Ok && !old(self).buffered ==> final(dl).log == old(dl).log.push(DevWrite { fd: old(self).fd, bytes: final(self).buf@ }) // [C04.fdw.%s.device]''' % op,
+                 'r is Err && old(self).buffered ==> final(self).unchanged(old(self)) // [C04.fdw.%s.err_nothing]' % op],
+        splices=[('^', 'after', 'broadcast use axiom_capacity_bound; reveal_with_fuel(fv_total, 2);'),
+                 ('self.account_written(cnt);', 'before', 'proof { assert(cnt <= count); }'),
+                 ('if self.buffered {', 'before', 'proof { if !self.buffered { assert(self.buf@.take(cnt as int) =~= self.buf@); } }')])
+    fns = [
+        tok(Fn(F, SC, 'commit',
                # refinement of the abstract Writer::commit (prelude/transport.rs): buffered => ONE device write of own ++ other's
                # bytes (none if there are none); unbuffered => nothing
                requires=['old(self).buffered && (old(self).buf@ + other_bytes(other)).len() > 0 ==> dev_write_ok(old(self).fd, old(self).buf@ + other_bytes(other)) // [C04.commit.one_write]'],
-               ensures=['final(self).buf@ == old(self).buf@ && final(self).buffered == old(self).buffered && final(self).fd == old(self).fd',
-                        '!old(self).buffered || (old(self).buf@ + other_bytes(other)).len() == 0 ==> r == Ok::<usize, io::Error>(0usize) // [C04.commit.nothing]'],
+               ensures=['final(self).unchanged(old(self))',
+                        '!old(self).buffered || (old(self).buf@ + other_bytes(other)).len() == 0 ==> r == Ok::<usize, io::Error>(0usize) && %s // [C04.commit.nothing]' % LOG_SAME,
+                        '''old(self).buffered && (old(self).buf@ + other_bytes(other)).len() > 0 ==> match r {
+                            Ok(n) => n == (old(self).buf@ + other_bytes(other)).len()
+                                && final(dl).log == old(dl).log.push(DevWrite { fd: old(self).fd, bytes: old(self).buf@ + other_bytes(other) }),
+                            Err(e) => final(dl).log == old(dl).log && e.os_code() is Some,
+                        } // [C04.commit.device]'''],
                splices=[('^', 'after', 'reveal_with_fuel(ios_concat, 3);'),
                         ('let res = match (self.buf.len(), o.len()) {', 'before',
                          'proof { assert(o@ == other_bytes(other)); assert(self.buf@ + o@ =~= self.buf@ + other_bytes(other)); if self.buf@.len() == 0 { assert(self.buf@ + o@ =~= o@); } if o@.len() == 0 { assert(self.buf@ + o@ =~= self.buf@); } }'),
-                        ('writev(self.fd, &bufs)', 'before', 'proof { assert(ios_concat(bufs@) =~= self.buf@ + o@) by { assert(bufs@.skip(1).skip(1).len() == 0); assert(bufs@.skip(1)[0] == bufs@[1]); } } // [C04.commit.order]'),
-                        ('|e|', 'closure', '|e: Errno| -> (q: io::Error)')],
-               props=['C04'], canary=True),
-            Fn(F, SC, 'bytes_written', ensures=['r == self.buf@.len() // [C04.writer.written]'], props=['C04']),
-            Fn(F, SC, 'available_bytes', ensures=['r + self.buf@.len() == spec_capacity(&self.buf) // [C04.writer.available]'], props=['C04'],
-               sig_subst=[]),
-            Fn(F, SC, 'check_available_space',
-               # the run-time assert!(self.buffered || self.buf.is_empty()) becomes this precondition (R5): the abstract Writer
-               # of the server unit carries the same clause, so no handler can trip it
-               requires=['self.buffered || self.buf@.len() == 0 // [C04.writer.assert]'],
-               ensures=['r is Ok <==> sz + self.buf@.len() <= spec_capacity(&self.buf) // [C04.writer.space]',
-                        'r is Err ==> r->Err_0.os_code() is None'],
-               props=['C04'], canary=True),
-        ]),
+                        ('writev(self.fd, &bufs, Tracked(dl))', 'before', 'proof { assert(ios_concat(bufs@) =~= self.buf@ + o@) by { assert(bufs@.skip(1).skip(1).len() == 0); assert(bufs@.skip(1)[0] == bufs@[1]); } } // [C04.commit.order]'),
+                        ('|e|', 'closure', '|e: Errno| -> (q: io::Error) ensures q.os_code() is Some')],
+               props=['C04'], canary=True), free=['write', 'writev']),
+        Fn(F, SC, 'bytes_written', ensures=['r == self.buf@.len() // [C04.writer.written]'], props=['C04']),
+        Fn(F, SC, 'available_bytes', ensures=['r + self.buf@.len() == spec_capacity(&self.buf) // [C04.writer.available]'], props=['C04'],
+           sig_subst=[]),
+        Fn(F, SC, 'check_available_space',
+           # the run-time assert!(self.buffered || self.buf.is_empty()) becomes this precondition (R5): the abstract Writer
+           # of the server unit carries the same clause, so no handler can trip it
+           requires=['self.buffered || self.buf@.len() == 0 // [C04.writer.assert]'],
+           ensures=['r is Ok <==> sz + self.buf@.len() <= spec_capacity(&self.buf) // [C04.writer.space]',
+                    'r is Err ==> r->Err_0.os_code() is None'],
+           props=['C04'], canary=True),
+        Fn(F, SC, 'account_written',
+           requires=['old(self).buf@.len() + count <= old(self).cap() // [C04.fdw.account_written.in_bounds]'],
+           ensures=['final(self).frame_same(old(self))',
+                    'final(self).grew_by(old(self), count as nat) // [C04.fdw.account_written.amount]'],
+           splices=[('^', 'after', 'broadcast use axiom_capacity_bound;'),
+                    ('unsafe { self.buf.set_len(new_len) };', 'after', 'proof { assert(self.buf@.take(old(self).buf@.len() as int) =~= old(self).buf@); }')],
+           props=['C04'], canary=True),
+        tok(Fn(F, SC, 'do_write',
+               requires=['dev_write_ok(fd, data@) // [C04.fdw.do_write.one_write]'],
+               ensures=['r is Ok ==> r->Ok_0 == data@.len() && final(dl).log == old(dl).log.push(DevWrite { fd: fd, bytes: data@ }) // [C04.fdw.do_write.device]',
+                        'r is Err ==> %s && r->Err_0.os_code() is None // [C04.fdw.do_write.err_nothing]' % LOG_SAME],
+               splices=[('|e|', 'closure', CLOSURE_E)],
+               props=['C04'], canary=True), free=['write']),
+        tok(Fn(F, SWIO, 'write',
+               requires=[ASSERT_PRE,
+                         '!old(self).buffered && data@.len() <= old(self).cap() ==> dev_write_ok(old(self).fd, data@) // [C04.fdw.write.one_write]'],
+               ensures=['final(self).frame_same(old(self))',
+                        space('write', 'data@.len()'),
+                        'r is Ok ==> r->Ok_0 == data@.len() && final(self).grew_by(old(self), data@.len()) // [C04.fdw.write.amount]',
+                        'r is Ok && old(self).buffered ==> final(self).buf@ == old(self).buf@ + data@ && %s // [C04.fdw.write.order]' % LOG_SAME,
+                        'r is Ok && !old(self).buffered ==> final(dl).log == old(dl).log.push(DevWrite { fd: old(self).fd, bytes: data@ }) // [C04.fdw.write.device]',
+                        'r is Err ==> final(self).unchanged(old(self)) && %s // [C04.fdw.write.err_nothing]' % LOG_SAME,
+                        'old(self).buffered && old(self).buf@.len() + data@.len() <= old(self).cap() ==> r is Ok'],
+               splices=[('^', 'after', 'broadcast use axiom_capacity_bound;'),
+                        ('Ok(data.len())', 'before', 'proof { assert(self.buf@.take(old(self).buf@.len() as int) =~= old(self).buf@); }')],
+               props=['C04'], canary=True), path=['do_write'], rules=('R31',)),
+        tok(Fn(F, SWIO, 'write_vectored',
+               requires=[ASSERT_PRE,
+                         # the total must be a usize: the real fold adds with `+` (debug build: panic, release build: wrap-around)
+                         '%s <= usize::MAX // [C04.fdw.write_vectored.total_representable]' % TOTAL,
+                         '!old(self).buffered && bufs@.len() > 0 && %s <= old(self).cap() ==> dev_write_ok(old(self).fd, ios_concat(bufs@)) // [C04.fdw.write_vectored.one_write]' % TOTAL],
+               ensures=['final(self).frame_same(old(self))',
+                        space('write_vectored', TOTAL),
+                        'r is Ok ==> r->Ok_0 == %s && final(self).grew_by(old(self), %s) // [C04.fdw.write_vectored.amount]' % (TOTAL, TOTAL),
+                        'r is Ok && old(self).buffered ==> final(self).buf@ == old(self).buf@ + ios_concat(bufs@) && %s // [C04.fdw.write_vectored.order]' % LOG_SAME,
+                        'r is Ok && !old(self).buffered && bufs@.len() > 0 ==> final(dl).log == old(dl).log.push(DevWrite { fd: old(self).fd, bytes: ios_concat(bufs@) }) // [C04.fdw.write_vectored.device]',
+                        'r is Ok && !old(self).buffered && bufs@.len() == 0 ==> %s // [C04.fdw.write_vectored.device]' % LOG_SAME,
+                        'r is Err ==> final(self).unchanged(old(self)) && %s // [C04.fdw.write_vectored.err_nothing]' % LOG_SAME,
+                        'old(self).buffered && old(self).buf@.len() + %s <= old(self).cap() ==> r is Ok' % TOTAL],
+               splices=wv_splices,
+               props=['C04'], canary=True), callees=['write'], free=['writev'], rules=('R31', 'R40', 'R41', 'R42')),
+        Fn(F, SWIO, 'flush', ensures=['r is Err && final(self).unchanged(old(self)) // [C04.fdw.flush.nothing]'], props=['C04']),
+        tok(Fn(F, SC, 'write_obj',
+               requires=['old(self).buffered || old(self).buf@.len() == 0 || val.sbytes().len() == 0 // [C04.writer.assert]',
+                         'val.sbytes().len() > 0 && !old(self).buffered && val.sbytes().len() <= old(self).cap() ==> dev_write_ok(old(self).fd, val.sbytes()) // [C04.fdw.write_obj.one_write]'],
+               ensures=['final(self).frame_same(old(self))',
+                        space('write_obj', 'val.sbytes().len()'),
+                        'r is Ok ==> final(self).grew_by(old(self), val.sbytes().len()) // [C04.fdw.write_obj.amount]',
+                        'r is Ok && old(self).buffered ==> final(self).buf@ == old(self).buf@ + val.sbytes() && %s // [C04.fdw.write_obj.order]' % LOG_SAME,
+                        'r is Ok && !old(self).buffered && val.sbytes().len() > 0 ==> final(dl).log == old(dl).log.push(DevWrite { fd: old(self).fd, bytes: val.sbytes() }) // [C04.fdw.write_obj.device]',
+                        'r is Err ==> final(self).unchanged(old(self)) && %s // [C04.fdw.write_obj.err_nothing]' % LOG_SAME],
+               props=['C04'], canary=True), callees=['write_all']),
     ]
-    return Unit('fusedevw', items, preludes=['base.rs'])
+    for op, at in (('write_from', False), ('write_from_at', True)):
+        c = file_xfer(op)
+        fns.append(tok(Fn(F, SC, op, requires=c['requires'], ensures=c['ensures'], splices=c['splices'], props=['C04'], canary=True), path=['do_write']))
+    fns.append(tok(Fn(F, SC, 'write_all_from',
+                      # a second round on an UNBUFFERED writer would trip the assert! of check_available_space (the first round has
+                      # accounted bytes) after a partial message went to the device: only a buffered writer may be used (finding F1)
+                      requires=['old(self).buffered // [C04.fdw.write_all_from.buffered_only]'],
+                      ensures=['final(self).frame_same(old(self))',
+                               space('write_all_from', 'count'),
+                               LOG_SAME + ' // [C04.fdw.write_all_from.device]',
+                               # Ok only when every byte asked for was appended
+                               'r is Ok ==> final(self).grew_by(old(self), count as nat) // [C04.fdw.write_all_from.amount]',
+                               'final(self).buf@.len() >= old(self).buf@.len() && final(self).buf@.take(old(self).buf@.len() as int) == old(self).buf@ // [C04.fdw.write_all_from.order]'],
+                      attrs=['#[verifier::exec_allows_no_decreases_clause]', '#[verifier::loop_isolation(false)]'],
+                      splices=[('while count > 0 {', 'replace', '''let ghost count0 = count;
+        while count > 0
+            invariant
+                count <= count0, self.frame_same(old(self)), self.buffered, dl.log == old(dl).log,
+                old(self).buf@.len() + count0 <= old(self).cap(),
+                self.grew_by(old(self), (count0 - count) as nat), // [C04.fdw.write_all_from.loop]
+        {
+            let ghost before = self.buf@;'''),
+                               ('Ok(n) => count -= n,', 'replace', 'Ok(n) => { proof { assert(self.buf@.take(old(self).buf@.len() as int) =~= before.take(old(self).buf@.len() as int)); } count -= n },')],
+                      props=['C04'], canary=True), callees=['write_from']))
+    for f in fns:
+        f.body_resub = list(f.body_resub) + EVERY
+    return fns
+
+
+def split_new_fns():
+    OLDB = 'old(self).buf@'
+    split = Fn(F, SC, 'split_at',
+               ensures=[
+                   # "Returns an error if offset > capacity" - and only then; nothing moves
+                   'r is Err <==> offset > old(self).cap() // [C04.fdw.split_at.bounds]',
+                   'r is Err ==> final(self).unchanged(old(self)) // [C04.fdw.split_at.err_nothing_moves]',
+                   # the two shares partition the old one: [base, base+offset) and [base+offset, base+cap)
+                   '''r is Ok ==> final(self).fd == old(self).fd && final(self).buffered && final(self).cap() == offset && vec_base(&final(self).buf) == vec_base(&old(self).buf)
+                        && r->Ok_0.fd == old(self).fd && r->Ok_0.buffered && r->Ok_0.cap() == old(self).cap() - offset
+                        && vec_base(&r->Ok_0.buf) == vec_base(&old(self).buf) + offset // [C04.fdw.split_at.partition]''',
+                   # every accounted byte stays where it is: the parent keeps the first min(len, offset), the rest belongs to the child
+                   '''r is Ok ==> final(self).buf@ + r->Ok_0.buf@ =~= %s && final(self).buf@.len() == (if %s.len() > offset { offset as nat } else { %s.len() }) // [C04.fdw.split_at.bytes]''' % (OLDB, OLDB, OLDB)],
+               splices=[('^', 'after', 'broadcast use axiom_capacity_bound;')],
+               props=['C04'], canary=True)
+    split.body_resub = list(EVERY)
+    new = Fn(F, SNEW, 'new',
+             ensures=['''r is Ok && r->Ok_0.fd == fd && !r->Ok_0.buffered && r->Ok_0.buf@.len() == 0 && r->Ok_0.cap() == old(data_buf)@.len()
+                        && vec_base(&r->Ok_0.buf) == slice_base(&*old(data_buf)) // [C04.fdw.new.whole_buffer]'''],
+             props=['C04'], canary=True)
+    new.body_resub = list(EVERY)
+    return split, new
+
+
+def unit(root='/repo'):
+    split, new = split_new_fns()
+    items = [
+        Raw(PRE_COMMON), Raw(DEV_LOG), Raw(MODEL),
+        # ManuallyDrop<Vec<u8>> only suppresses the destructor (the Vec is built over borrowed memory): modelled as the Vec itself
+        Copy(F, r"pub struct FuseDevWriter<'a, S", subst=[('ManuallyDrop<Vec<u8>>', 'Vec<u8>'), ('S: BitmapSlice = ()', 'S: BitmapSlice')]),
+        Copy('src/transport/mod.rs', r"pub enum Writer<'a, S", subst=[('S: BitmapSlice = ()', 'S: BitmapSlice')], prefix='#[verifier::reject_recursive_types(S)]'),
+        Raw(SPEC),
+        Group("impl<'a, S: BitmapSlice + Default> FuseDevWriter<'a, S> {", [new]),
+        Group("impl<'a, S: BitmapSlice> FuseDevWriter<'a, S> {", [split] + writer_fns(root) + [Raw(STD_WRITE_ALL)]),
+    ]
+    return Unit('fusedevw', items, preludes=['base.rs'], generic_tags={'devwrite': ['C04']})
